@@ -918,8 +918,10 @@ OLC_RULES = {
 
 def check_olc(pid, tier, seed):
     t0 = time.time()
-    exe = build("olc")
-    exe_nd = build("olc_nd")   # NDEBUG variant (the repository's baseline configuration defines NDEBUG)
+    with cf.ThreadPoolExecutor(max_workers=2) as ex:   # the two harness builds in parallel
+        f1 = ex.submit(build, "olc")
+        f2 = ex.submit(build, "olc_nd")   # NDEBUG variant (the repository's baseline configuration defines NDEBUG)
+        exe, exe_nd = f1.result(), f2.result()
     res = Result()
     nrep = sched_replays(pid, exe, res)
     outdir = os.path.join(WORK, "run", pid)
@@ -955,7 +957,7 @@ def check_olc(pid, tier, seed):
     write_evidence(pid, tier, seed, "exploration", cov, time.time() - t0, len(res.violations),
                    ["sequential consistency at the granularity of one hooked access (lock word load/CAS/store, "
                     "protected field load/store, QSBR state); SIMD reads of node key arrays execute atomically with "
-                    "the next hooked access", "uint64 keys only in the scheduled harness",
+                    "the next hooked access", "keys of the scheduled harness are 8 bytes long: as uint64 (two thirds of the programs) or as fixed-length byte strings (one third)",
                     "ASan+UBSan, assertions and statistics enabled"])
     return finish(pid, res)
 
